@@ -55,11 +55,13 @@ FF_PENDANTS = ['c1cscn1', 'c1ccns1', 'c1cocn1', 'c1ccno1', 'c1ncco1', 'c1nccs1',
                'C(Cl)(Cl)Cl', 'CBr', 'CI', 'I', 'N(C)C', 'NC', 'N', '[NH3+]', 'C(=O)[O-]', 'OCC1CO1', 'C1CO1', 'c1ccc(N)cc1', 'c1ccc(C#N)cc1',
                'c1ccc([N+](=O)[O-])cc1', 'c1ccc(OC)cc1', 'c1ccc(C(=O)O)cc1', 'c1ccc(S)cc1', 'c1ccc(Br)cc1', 'c1ccc(I)cc1', 'c1ccc(C(F)(F)F)cc1',
                'c1c(F)c(F)c(F)c(F)c1F', '[Si](C)(C)C', 'C(=O)OC(C)(C)C', 'C(=O)OCCO', 'OC', 'OCC', 'OC(C)=O', 'C(C)=O', 'CO', 'CCO', 'C(O)CO',
-               'CN', 'CCN']
+               'CN', 'CCN',
+               # isotope labels (deuterated / 13C methyl, labelled ring): an isotope is not an element, the element's parameter set applies
+               'C([2H])([2H])[2H]', '[13CH3]', 'C[13CH3]', 'OC([2H])([2H])[2H]', 'c1ccc([13CH3])cc1', 'C(=O)OC([2H])([2H])[2H]']
 FF_PENDANTS_UNTYPABLE = ['C(=O)Cl', 'C(F)(F)F', 'OO', 'N=C=O', 'B(O)O']
 FF_ENDS = ["[H]", "C", "O", "CC", "OC", "c1ccccc1", "C(C)(C)C", "F", "N", "Cl", "Br", "C#N", "C(=O)O", "S",
-           "Cc1cc2ccccc2o1", "Cc1ccc2ccccc2n1", "c1ccc2ccccc2c1", "Cc1ccco1"]
-FF_PREFIX = ["[H]", "C", "O", "CC", "CO", "c1ccccc1", "C(C)(C)C", "F", "N", "Cl", "Br", "N#CC", "OC(=O)C", "S"]
+           "Cc1cc2ccccc2o1", "Cc1ccc2ccccc2n1", "c1ccc2ccccc2c1", "Cc1ccco1", "[2H]", "C([2H])([2H])[2H]", "[13CH3]", "O[2H]"]
+FF_PREFIX = ["[H]", "C", "O", "CC", "CO", "c1ccccc1", "C(C)(C)C", "F", "N", "Cl", "Br", "N#CC", "OC(=O)C", "S", "[2H]", "[2H]C([2H])([2H])C", "[13CH3]"]
 CALLS = ["default", "default_explicit_none", "copies", "copies", "rules_copy_only", "params_copy_only", "renumbered", "partial",
          "other_copies", "alt_params", "alt_params"]
 
